@@ -19,6 +19,9 @@ extern "C" void vstl_length_error(void);        // models std::length_error / st
 extern "C" void vstl_oob(void);                 // index beyond size(): memory-safety violation of the real container
 extern "C" void vstl_access(const void* container); // lock-discipline hook (C18); empty by default
 
+#ifndef VSTL_HUGE
+#define VSTL_HUGE (((size_t)1) << 31)
+#endif
 #ifndef VSTL_MAX_NEST
 #define VSTL_MAX_NEST 2
 #endif
